@@ -41,6 +41,8 @@ def model_check_dec(stats, tier):
     _mc(stats, 'MC_FramingDec', 'MC_FramingDec_noenc.cfg')
     # named deviation: the decoder before the fix must violate the monitor (anti-vacuity of the Contract)
     _mc(stats, 'MC_FramingDec', 'MC_FramingDec_unlatched.cfg', expect_violation='Shape')
+    # named deviation: an empty DATA frame taken for the end of the body
+    _mc(stats, 'MC_FramingDec', 'MC_FramingDec_emptyends.cfg', expect_violation='ContractHolds')
     if tier == 'thorough':
         _mc(stats, 'MC_FramingDec', 'MC_FramingDec_big.cfg', workers=12, timeout=3000)
 
